@@ -77,6 +77,12 @@ def recipes(n, shape, rng):
         for nm, f in (("x+y[1:]", lambda: x + y[1:]), ("x.dot(y[1:])", lambda: x.dot(y[1:])), ("x+c[1:]", lambda: x + cv[1:]),
                       ("c[1:]@x", lambda: cv[1:] @ x), ("(x**2)+y[1:]", lambda: (x ** 2) + y[1:])):
             add("reject:" + nm, (lambda f=f: ("must-raise", f)))
+    def con_case(build, want):
+        def f():
+            cons = build()
+            got = np.array([float(k.expr.evaluate(vals)) for k in cons])
+            return ("np", got, np.asarray(want, dtype=float).reshape(-1))
+        return f
     # matrices
     add("A+B", lambda: (A + B_, AN + BN)); add("A-B", lambda: (A - B_, AN - BN)); add("A*s", lambda: (A * s, AN * s))
     add("s*A", lambda: (s * A, s * AN)); add("-A", lambda: (-A, -AN)); add("A/s", lambda: (A / s, AN / s))
@@ -101,17 +107,24 @@ def recipes(n, shape, rng):
             got = np.array([[v2[S[i, j].name] for j in range(r)] for i in range(r)])
             return ("np", got, SN)
         add("symmetric sharing", sym_case)
+        # a symmetric matrix used as an operand: every reduction / view / product sees the full r x r array
+        SN2 = np.zeros((r, r))
+        for i in range(r):
+            for j in range(i, r):
+                vals[S[i, j].name] = SN2[i, j] = SN2[j, i] = rng.choice([1.0, 2.0, -1.0, 0.5, 3.0])
+        add("S.sum()", lambda: (S.sum(), SN2.sum())); add("S.T.sum()", lambda: (S.T.sum(), SN2.T.sum()))
+        add("(S+0).sum()", lambda: ((S + 0).sum(), SN2.sum())); add("S.trace()", lambda: (S.trace(), np.trace(SN2)))
+        add("S+A", lambda: (S + A, SN2 + AN)); add("S-S.T", lambda: (S - S.T, SN2 - SN2.T)); add("S*s", lambda: (S * s, SN2 * s))
+        add("S[0,:]", lambda: (S[0, :], SN2[0, :])); add("S[:,0]", lambda: (S[:, 0], SN2[:, 0])); add("S[-1,:].sum()", lambda: (S[-1, :].sum(), SN2[-1, :].sum()))
+        add("S.diagonal()", lambda: (S.diagonal(), np.diag(SN2))); add("S.T", lambda: (S.T, SN2.T))
+        add("con:S<=N", con_case(lambda: S <= BN, SN2 - BN))
+        if r == n:
+            add("S@x", lambda: (S @ x, SN2 @ X))
     if c == n:
         add("A@x", lambda: (A @ x, AN @ X))
     else:
         add("reject:A@x", lambda: ("must-raise", lambda: A @ x))
     # element-wise matrix constraints (C10): one constraint per entry, row-major, whatever the memory layout of the array
-    def con_case(build, want):
-        def f():
-            cons = build()
-            got = np.array([float(k.expr.evaluate(vals)) for k in cons])
-            return ("np", got, np.asarray(want, dtype=float).reshape(-1))
-        return f
     NF = np.asfortranarray(BN)
     NT = np.ascontiguousarray(BN.T).T          # same values as BN, column-major strides
     add("con:A<=N", con_case(lambda: A <= BN, AN - BN)); add("con:A<=N(F-order)", con_case(lambda: A <= NF, AN - BN))
